@@ -29,7 +29,9 @@ def r1(ctx, res):
         return
     lp = loops[0]
     p = norm(lp.target)
-    val_texts = {norm(_parse(t)) for t in (f"overrides.get({p}.name, getattr({s}, {p}.name, None))", f"getattr({s}, {p}.name, None)")}
+    val_texts = {norm(_parse(t)) for t in (f"overrides.get({p}.name, getattr({s}, {p}.name, None))", f"getattr({s}, {p}.name, None)",
+                                          f"overrides[{p}.name] if {p}.name in overrides else getattr({s}, {p}.name, None)",
+                                          f"getattr({s}, {p}.name, None) if {p}.name not in overrides else overrides[{p}.name]")}
     # the value may also stay in a loop-local name
     val = None
     for node, b in find(f"MV_v = overrides.get({p}.name, getattr({s}, {p}.name, None))", lp.body):
@@ -56,6 +58,12 @@ def r1(ctx, res):
         if c and c[1] in ("==", "!=", "is", "is not") and c[0] == f"{p}.kind" and c[2] in (f"{p}.VAR_POSITIONAL", f"{p}.KEYWORD_ONLY"):
             v_ = A["VAR"] if c[2].endswith("VAR_POSITIONAL") else A["KW"]
             return v_ if c[1] in ("==", "is") else (not v_)
+        # `isinstance(value, bool) == isinstance(param.default, bool)`: part of a type-strict equality
+        if c and c[1] == "==" and {c[0], c[2]} == {f"isinstance({next(iter(val_texts))}, bool)", f"isinstance({p}.default, bool)"}:
+            return A["EQ"]
+        if c and c[1] == "==" and all(x.startswith("isinstance(") and x.endswith(", bool)") for x in (c[0], c[2])) \
+                and any(is_val(x[len("isinstance("):-len(", bool)")]) for x in (c[0], c[2])):
+            return A["EQ"]
         if is_val(norm(e)):
             truthy_on_value.append(norm(e))
         return None
@@ -115,6 +123,13 @@ def r1(ctx, res):
               reason="a keyword is omitted exactly when it EQUALS the constructor default (an equality, not a truthiness test, "
                      "which would hide 0, False, '' and []); otherwise it is put back where the constructor takes it "
                      "(varargs / keyword-only / positional)")
+    # sibling cross-check: the omission test and element equality must use the same notion of "equal"
+    eq_ = ctx.func("Element.__eq__")
+    eq_bool_aware = has("replace_bool(MV__)", eq_) or any(has("replace_bool(MV__)", g_.node) for g_ in list(eq_.lambdas) + list(eq_.nested.values()))
+    omit_bool_aware = has("replace_bool(MV__)", f) or has("isinstance(MV__, bool) == isinstance(MV__.default, bool)", f)
+    res.judge(True if (eq_bool_aware == omit_bool_aware) else False, f, "value == param.default (plain ==) vs Element.__eq__ (bool-aware)",
+              reason="repr omits a keyword when it equals the default under Python's ==, but Element.__eq__ tells 0 from False: "
+                     "repr(Element(uniqueItems=0)) is 'Element()', which is not equal to the original")
     ar = ctx.func("Args.__repr__")
     var_ = view(ar, ctx.prog).body
     pos_ok = kw_ok = None
@@ -141,7 +156,9 @@ def r1(ctx, res):
     res.judge(True if has(f"return f'{{type({cr.params[0].name}).__name__}}{{repr(custom_repr_args({cr.params[0].name}, **overrides))}}'", crv) else None, cr,
               "f'{type(self).__name__}{repr(custom_repr_args(self, **overrides))}'", reason="class name followed by the argument list")
     er = ctx.func("Element.__repr__")
-    res.judge(True if has("return custom_repr(self)", view(er, ctx.prog).body) else None, er, "return custom_repr(self)",
+    passes_overrides = any(isinstance(x, ast.Call) and dotted(x.func) == "custom_repr" and (x.keywords or len(x.args) > 1)
+                           for x in walk_own(er.body))
+    res.judge(True if has("return custom_repr(self)", view(er, ctx.prog).body) else (False if passes_overrides else None), er, "return custom_repr(self)",
               reason="elements use the derived repr")
 
 
@@ -187,8 +204,18 @@ def r3(ctx, res):
                 allowed.append(txt)
             else:
                 stray.append(txt)
-        detail = {"filters": allowed, "other_filters": stray, "value_read_with_another_fallback": wrong_default}
-        if wrong_default or any(any(v in s_ for v in VAL) or "value" in s_ for s_ in stray):
+        # a truthiness test on the value anywhere in the loop decides an omission by falsiness ({} / 0 / [] / Nothing())
+        truthy = []
+        if isinstance(b.node, ast.For):
+            for x in walk_own(b.node.body):
+                if isinstance(x, (ast.If, ast.IfExp)):
+                    for t_, p_ in flatten_guard(x.test, True) + flatten_guard(x.test, False):
+                        t0, _ = strip_not(t_, p_)
+                        if norm(t0) in VAL:
+                            truthy.append(norm(x.test))
+        detail = {"filters": allowed, "other_filters": stray, "value_read_with_another_fallback": wrong_default,
+                  "truthiness_tests_on_the_value": sorted(set(truthy))}
+        if wrong_default or truthy or any(any(v in s_ for v in VAL) or "value" in s_ for s_ in stray):
             verdict = False
         elif stray:
             verdict = None
@@ -429,6 +456,15 @@ def n1(ctx, res):
         pan.body.index(last_if[-1]) == len(pan.body) - 2
     res.check(ok_last, pan, "reserved names get a trailing '_' as the LAST transformation",
               reason="no later step can turn the result back into a reserved name")
+    if last_if:
+        t_ = last_if[-1].test
+        exact = match(_parse("MV_n in RESERVED_PROPERTIES"), t_) is not None
+        widened = isinstance(t_, ast.BoolOp) and isinstance(t_.op, ast.Or) and any(
+            isinstance(v_, ast.Compare) and isinstance(v_.ops[0], ast.In) and isinstance(v_.left, ast.Call) for v_ in t_.values)
+        res.judge(True if exact else (False if widened else None), pan, "if name in RESERVED_PROPERTIES (the name itself, nothing derived from it)",
+                  reason="the parser maps names of a schema dict in place and visits shared dicts again: the mapping must leave its own "
+                         "results alone (idempotent). A test on a DERIVED name (name.rstrip('_') ...) also fires on `from_`, which "
+                         "becomes `from__` on the second visit")
     # class-private name mangling: '_' is a kept character, so '__x' passes through unchanged unless handled
     keeps_underscore = pred("_")
     vpan = norm(pan.node)
